@@ -6,7 +6,7 @@ import ast
 
 from ..kinds import is_frac, wrapped
 from ..source import norm_text
-from .geo import all_geos, geo_text, kind_errors, pbc_distance_obligations, uniq_events
+from .geo import all_geos, geo_text, kind_errors, pbc_distance_obligations, under, uniq_events
 
 SA = 'gemdat.shape.ShapeAnalyzer'
 FEP = f'{SA}.find_equivalent_positions'
@@ -23,7 +23,7 @@ def check(ctx):
     ctx.floor('R3', 1)
     fi = ctx.fn(FEP)
     it = ctx.entry(f'{SA}.analyze_trajectory')
-    inside = lambda f: f.qualname == FEP
+    inside = under(FEP)
     kind_errors(ctx, 'R2', it, inside)
     # ---- R1
     corr = uniq_events(it, {'image_correction'}, inside)
@@ -89,7 +89,7 @@ def check(ctx):
                'the value converted to Cartesian is not (points - site coordinates)')
     # ---- R3
     fa = ctx.fn(f'{SA}.analyze_trajectory')
-    folds = uniq_events(it, {'fold'}, lambda f: f.qualname == fa.qualname)
+    folds = uniq_events(it, {'fold'}, under(fa.qualname))
     if not folds:
         ctx.ob('R3', fa, 'supercell folding', None, 'folding idiom np.mod(x, 1 / s) * s not recognised')
     for e in folds:
